@@ -14,6 +14,7 @@ import (
 	"math/rand"
 	"strconv"
 	"strings"
+	"sync"
 
 	"verifharness/core"
 
@@ -189,6 +190,8 @@ func applyScript(t *tree.Tree, script []string) (log []string) {
 				if _, _, _, err := t.GraftTipOnEdge(nn, e); err != nil {
 					res = "err"
 				}
+			case "internal":
+				// marker read by doIndex
 			default:
 				res = "unknown"
 			}
@@ -276,6 +279,20 @@ func genScript(c *core.Ctx, n *core.N) []string {
 			s = append(s, "graft:"+showPath(p)+":"+core.Escape(fmt.Sprintf("g%d", i)))
 		}
 	}
+	// only shape edits after a first ReinitIndexes: ReinitInternalIndexes must give the same indexes
+	if len(s) > 1 && s[0] == "reinit" && g.Chance(0.5) {
+		ok := true
+		for _, st := range s[1:] {
+			switch strings.SplitN(st, ":", 2)[0] {
+			case "reroot", "rotate", "unroot", "collapse", "resolve":
+			default:
+				ok = false
+			}
+		}
+		if ok {
+			s = append(s, "internal")
+		}
+	}
 	return s
 }
 
@@ -286,13 +303,24 @@ func doIndex(c *core.Ctx, n *core.N, script []string) {
 	}
 	applyScript(t, script)
 	after, wf := core.Alpha(t)
-	if !wf.OK() {
-		// not this property's business (C03): the case is reported as skipped
+	if !wf.OK() && !orientationOnly(wf) {
+		// not this property's business (C03): the case is reported as skipped.  A heap whose only
+		// problem is the orientation of branches still has a tree shape: it goes on, and the
+		// enumerations / indexes computed from it are judged against that shape.
 		c.Emit("C04.index", n.Dump(), core.StrList(script), "malformed", core.Escape(strings.Join(wf.Problems, "; ")), "", "", "")
 		return
 	}
 	var rerr error
-	if p, msg := core.Safe(func() { rerr = t.ReinitIndexes() }); p {
+	// a script ending with "internal" (tip set and names untouched since the last ReinitIndexes):
+	// the indexes are recomputed with ReinitInternalIndexes, which keeps the tip index
+	internal := len(script) > 0 && script[len(script)-1] == "internal"
+	if p, msg := core.Safe(func() {
+		if internal {
+			t.ReinitInternalIndexes()
+		} else {
+			rerr = t.ReinitIndexes()
+		}
+	}); p {
 		c.Emit("C04.index", n.Dump(), core.StrList(script), "panic:"+core.Escape(msg), after.Dump(), "", "", "")
 		return
 	}
@@ -352,14 +380,70 @@ func doIndex(c *core.Ctx, n *core.N, script []string) {
 	c.Emit("C04.index", n.Dump(), core.StrList(script), "ok", after.Dump(), rk, b.String(), enum)
 }
 
+// orientationOnly: every problem of the heap is a branch not oriented away from the root.
+func orientationOnly(wf *core.WF) bool {
+	for _, p := range wf.Problems {
+		if !strings.Contains(p, "not oriented away from the root") {
+			return false
+		}
+	}
+	return len(wf.Problems) > 0
+}
+
+// rootTipRemoval: an edit history that removes a tip attached to the root (after re-rooting on
+// the tip's parent when needed), optionally after the indexes have been computed once.
+func rootTipRemoval(c *core.Ctx, n *core.N) []string {
+	g := c.G
+	var s []string
+	if g.Chance(0.6) {
+		s = append(s, "reinit")
+	}
+	// paths of the leaves, with the path of their parent
+	var cands [][]int
+	for _, p := range n.Paths() {
+		if len(p) > 0 && len(n.At(p).Kids) == 0 {
+			cands = append(cands, p)
+		}
+	}
+	if len(cands) == 0 || len(n.TipNames()) < 4 {
+		return s
+	}
+	p := cands[g.Intn(len(cands))]
+	if len(p) > 1 {
+		s = append(s, "reroot:"+showPath(p[:len(p)-1]))
+	}
+	s = append(s, "remove:"+core.Escape(n.At(p).Name))
+	if g.Chance(0.3) {
+		s = append(s, fmt.Sprintf("rotate:%d", g.Intn(1000)))
+	}
+	return s
+}
+
 func indexCase(c *core.Ctx) {
 	n := genTree(c)
+	if !c.Quick() && c.G.Chance(0.004) {
+		// a few hundred tips (several words of the bitset, deep recursion)
+		o := treeOpts(c.G, false)
+		o.MinTips, o.MaxTips = 200, 300
+		n, _ = c.G.Tree(o)
+		core.NumberEdges(n)
+	}
+	dup := false
 	if c.G.Chance(0.04) {
 		// duplicate tip names: ReinitIndexes must refuse
 		tn := n.TipNames()
 		dupName(n, tn[0])
+		dup = true
 	}
-	doIndex(c, n, genScript(c, n))
+	if c.G.Chance(0.2) {
+		doIndex(c, n, rootTipRemoval(c, n))
+		return
+	}
+	script := genScript(c, n)
+	if dup && len(script) > 0 && script[len(script)-1] == "internal" {
+		script = script[:len(script)-1] // ReinitInternalIndexes presupposes a usable tip index
+	}
+	doIndex(c, n, script)
 }
 
 // dupName renames the last leaf to the given name.
@@ -407,7 +491,7 @@ func doPairs(c *core.Ctx, n1, n2 *core.N) {
 		panic(err)
 	}
 	var e1, e2 error
-	var heq, sb, fe string
+	var heq, sb, fe, ce string
 	var es1, es2 []edgeAt
 	if p, msg := core.Safe(func() {
 		e1 = t1.ReinitIndexes()
@@ -436,15 +520,24 @@ func doPairs(c *core.Ctx, n1, n2 *core.N) {
 			}
 		}
 		fe = b.String()
+		// CommonEdges, without and with the tip branches
+		for _, te := range []bool{false, true} {
+			t1o, cm, err := t1.CommonEdges(t2, te)
+			if err != nil {
+				ce += "err;"
+			} else {
+				ce += fmt.Sprintf("%d,%d;", t1o, cm)
+			}
+		}
 	}); p {
-		c.Emit("C04.pairs", n1.Dump(), n2.Dump(), "panic:"+core.Escape(msg), "", "", "", "", "")
+		c.Emit("C04.pairs", n1.Dump(), n2.Dump(), "panic:"+core.Escape(msg), "", "", "", "", "", "")
 		return
 	}
 	if e1 != nil || e2 != nil {
-		c.Emit("C04.pairs", n1.Dump(), n2.Dump(), "err", "", "", "", "", "")
+		c.Emit("C04.pairs", n1.Dump(), n2.Dump(), "err", "", "", "", "", "", "")
 		return
 	}
-	c.Emit("C04.pairs", n1.Dump(), n2.Dump(), "ok", hashList(es1), hashList(es2), heq, sb, fe)
+	c.Emit("C04.pairs", n1.Dump(), n2.Dump(), "ok", hashList(es1), hashList(es2), heq, sb, fe, ce)
 }
 
 // sameTaxaTree draws another tree on the tips of n.
@@ -512,6 +605,10 @@ func pairsCase(c *core.Ctx) {
 		} else {
 			n2 = a
 		}
+	}
+	if g.Chance(0.04) {
+		// one tip renamed: other taxa (CommonEdges must refuse; nothing else is judged)
+		dupName(n2, "other")
 	}
 	doPairs(c, n1, n2)
 }
@@ -639,7 +736,9 @@ func (k *key) HashEquals(h hashmap.Hasher) bool {
 	return k.a == h.(*key).a
 }
 
-var caps = []uint64{0, 1, 2, 3, 7, 128}
+// 5 and 10: float64(capacity)*0.1 rounds to an integer there (10*0.1 == 1.0), so the rehash
+// decision depends on the rounding of the product
+var caps = []uint64{0, 1, 2, 3, 7, 128, 5, 10}
 var lfs = []string{"0.1", "0.75", "1", "8"}
 
 func doHM(c *core.Ctx, cp uint64, lf string, mode int, ops []string) {
@@ -678,6 +777,18 @@ func doHM(c *core.Ctx, cp uint64, lf string, mode int, ops []string) {
 					fmt.Fprintf(&b, "%d.%d.%d/", k.a, k.b, kv.Value.(int))
 				}
 				replies = append(replies, b.String())
+			case 'y':
+				var b strings.Builder
+				b.WriteString("Y")
+				for _, h := range m.Keys() {
+					if h == nil {
+						b.WriteString("nil/")
+						continue
+					}
+					k := h.(*key)
+					fmt.Fprintf(&b, "%d.%d/", k.a, k.b)
+				}
+				replies = append(replies, b.String())
 			}
 		}
 	})
@@ -703,10 +814,14 @@ func hmCase(c *core.Ctx, i int) {
 		case r < 9:
 			ops = append(ops, fmt.Sprintf("g%d.%d", a, j))
 		default:
-			ops = append(ops, "k")
+			if g.Chance(0.5) {
+				ops = append(ops, "k")
+			} else {
+				ops = append(ops, "y")
+			}
 		}
 	}
-	ops = append(ops, "k")
+	ops = append(ops, "y", "k")
 	doHM(c, cp, lf, mode, ops)
 }
 
@@ -788,6 +903,22 @@ func doEI(c *core.Ctx, ns []*core.N, cp uint64, lf string, ops []string) {
 				} else {
 					replies = append(replies, "n")
 				}
+			case 'u':
+				// a branch of a tree that was never indexed: Bitset() is nil
+				ut := tree.NewTree()
+				a, b := ut.NewNode(), ut.NewNode()
+				ue := ut.ConnectNodes(a, b)
+				var err error
+				if len(replies)%2 == 0 {
+					err = ix.AddEdgeCount(ue)
+				} else {
+					err = ix.PutEdgeValue(ue, 3, 1)
+				}
+				if err != nil {
+					replies = append(replies, "err")
+				} else {
+					replies = append(replies, "u")
+				}
 			case 'e':
 				f := strings.Split(op[1:], ".")
 				mn, _ := strconv.Atoi(f[0])
@@ -836,6 +967,9 @@ func eiCase(c *core.Ctx, i int) {
 		default:
 			mn := g.Intn(3)
 			ops = append(ops, fmt.Sprintf("e%d.%d", mn, mn+g.Intn(3)))
+		}
+		if g.Chance(0.03) {
+			ops = append(ops, "u")
 		}
 	}
 	// finally every branch of every tree is looked up
@@ -972,6 +1106,87 @@ func quartetCase(c *core.Ctx, i int) {
 }
 
 // ---------------------------------------------------------------------------
+// C04.quartets : Tree.Quartets(specific, ·) and IndexQuartets
+
+func doQuartets(c *core.Ctx, n *core.N, specific, withIndex bool) {
+	sp := "0"
+	if specific {
+		sp = "1"
+	}
+	wi := "0"
+	if withIndex {
+		wi = "1"
+	}
+	t, err := core.Build(n)
+	if err != nil {
+		panic(err)
+	}
+	var rerr error
+	var ql, ix strings.Builder
+	ix.WriteString("-")
+	p, msg := core.Safe(func() {
+		if rerr = t.ReinitIndexes(); rerr != nil {
+			return // Quartets calls os.Exit when the tip index is unusable
+		}
+		t.Quartets(specific, func(q *tree.Quartet) {
+			fmt.Fprintf(&ql, "%d.%d.%d.%d,", q.T1, q.T2, q.T3, q.T4)
+		})
+		if withIndex {
+			ix.Reset()
+			m := t.IndexQuartets(specific)
+			for _, kv := range m.KeyValues() {
+				if kv == nil {
+					ix.WriteString("nil,")
+					continue
+				}
+				k, v := kv.Key.(*tree.Quartet), kv.Value.(*tree.Quartet)
+				fmt.Fprintf(&ix, "%d.%d.%d.%d:%d.%d.%d.%d,", k.T1, k.T2, k.T3, k.T4, v.T1, v.T2, v.T3, v.T4)
+			}
+		}
+	})
+	switch {
+	case p:
+		c.Emit("C04.quartets", n.Dump(), sp, wi, "panic:"+core.Escape(msg), "", "")
+	case rerr != nil:
+		c.Emit("C04.quartets", n.Dump(), sp, wi, "err", "", "")
+	default:
+		c.Emit("C04.quartets", n.Dump(), sp, wi, "ok", ql.String(), ix.String())
+	}
+}
+
+func quartetsCase(c *core.Ctx, i int) {
+	g := c.G
+	o := treeOpts(g, true)
+	o.MinTips, o.MaxTips = 4, 9
+	o.Multif = 0.4
+	if g.Chance(0.5) {
+		o.FunnyNames = false
+	}
+	n, _ := g.Tree(o)
+	if g.Chance(0.3) {
+		n = heavyChild(g)
+	}
+	if g.Chance(0.08) {
+		n = rootTip(n, "rt", g)
+	}
+	core.NumberEdges(n)
+	if g.Chance(0.4) {
+		// re-rooted: the parent is no longer the first neighbour (the "left" lists change their order)
+		t, err := core.Build(n)
+		if err != nil {
+			panic(err)
+		}
+		paths := n.Paths()
+		applyScript(t, []string{"reroot:" + showPath(paths[g.Intn(len(paths))]), fmt.Sprintf("rotate:%d", g.Intn(1000))})
+		if a, wf := core.Alpha(t); wf.OK() {
+			n = a
+		}
+	}
+	// IndexQuartets allocates 12 800 000 buckets: only now and then
+	doQuartets(c, n, g.Chance(0.5), i%c.Scale(12, 40) == 0)
+}
+
+// ---------------------------------------------------------------------------
 
 func parseDumps(s string) []*core.N {
 	var ns []*core.N
@@ -1046,6 +1261,12 @@ func Replay(c *core.Ctx, lines []string) {
 		case f[0] == "C04.ei" && len(f) >= 5:
 			cp, _ := strconv.ParseUint(f[2], 10, 64)
 			doEI(c, parseDumps(f[1]), cp, ratToLF(f[3]), unlist(f[4]))
+		case f[0] == "C04.quartets" && len(f) >= 4:
+			n, err := core.ParseDump(f[1])
+			if err != nil {
+				panic(err)
+			}
+			doQuartets(c, n, f[2] == "1", f[3] == "1")
 		case f[0] == "C04.quartet" && len(f) >= 5:
 			cp, _ := strconv.ParseUint(f[3], 10, 64)
 			doQuartet(c, parseQ(f[1]), parseQ(f[2]), cp, ratToLF(f[4]))
@@ -1055,8 +1276,76 @@ func Replay(c *core.Ctx, lines []string) {
 	}
 }
 
+// raceCases: PutValue / Value / KeyValues from several goroutines on one map (binary built with -race in
+// the thorough tier: a report of the race detector makes the harness exit with an error).  The keys are
+// distinct, so the final content does not depend on the schedule: it is emitted as an ordinary C04.hm case.
+func raceCases(c *core.Ctx, withKeyValues bool) {
+	g := c.G
+	for round := 0; round < 24; round++ {
+		cp := caps[round%len(caps)]
+		lf := lfs[(round/len(caps))%len(lfs)]
+		lff, _ := strconv.ParseFloat(lf, 64)
+		mode := g.Intn(6)
+		const workers, per = 8, 40
+		m := hashmap.NewHashMap(cp, lff)
+		var wg sync.WaitGroup
+		for w := 0; w < workers; w++ {
+			wg.Add(1)
+			go func(w int) {
+				defer wg.Done()
+				for i := 0; i < per; i++ {
+					a := w*1000 + i
+					m.PutValue(&key{a, 0, mode}, a+1)
+					m.Value(&key{a, 1, mode})
+					m.Value(&key{(w+1)%workers*1000 + i, 2, mode})
+					if withKeyValues && i%16 == 0 {
+						// KeyValues / Keys take no lock (finding reported in round 2): only with -arg race-kv
+						m.KeyValues()
+					}
+				}
+			}(w)
+		}
+		wg.Wait()
+		var ops, replies []string
+		for w := 0; w < workers; w++ {
+			for i := 0; i < per; i++ {
+				ops = append(ops, fmt.Sprintf("p%d.0.%d", w*1000+i, w*1000+i+1))
+				replies = append(replies, "u")
+			}
+		}
+		for w := 0; w < workers; w++ {
+			for i := 0; i < per; i += 7 {
+				a := w*1000 + i
+				ops = append(ops, fmt.Sprintf("g%d.3", a))
+				if v, ok := m.Value(&key{a, 3, mode}); ok {
+					replies = append(replies, fmt.Sprintf("v%d", v.(int)))
+				} else {
+					replies = append(replies, "n")
+				}
+			}
+		}
+		ops = append(ops, "k")
+		var b strings.Builder
+		b.WriteString("K")
+		for _, kv := range m.KeyValues() {
+			if kv == nil {
+				b.WriteString("nil/")
+				continue
+			}
+			k := kv.Key.(*key)
+			fmt.Fprintf(&b, "%d.%d.%d/", k.a, k.b, kv.Value.(int))
+		}
+		replies = append(replies, b.String())
+		c.Emit("C04.hm", strconv.FormatUint(cp, 10), core.Rat(lff), strconv.Itoa(mode), core.StrList(ops), core.StrList(replies))
+	}
+}
+
 // Run generates the cases of C04.
 func Run(c *core.Ctx) {
+	if c.Arg == "race" || c.Arg == "race-kv" {
+		raceCases(c, c.Arg == "race-kv")
+		return
+	}
 	if c.Arg != "" {
 		Replay(c, core.ReadRequests(c.Arg))
 		return
@@ -1071,6 +1360,9 @@ func Run(c *core.Ctx) {
 	}
 	for i, nr := 0, c.Scale(40, 1200); i < nr; i++ {
 		rootingsCase(c)
+	}
+	for i, nq := 0, c.Scale(60, 1500); i < nq; i++ {
+		quartetsCase(c, i)
 	}
 	nm := c.Scale(300, 5000)
 	for i := 0; i < nm; i++ {
